@@ -269,16 +269,22 @@ def parse_race_log(text):
     for rep in text.split("==================\n"):
         if "WARNING: DATA RACE" not in rep:
             continue
-        sides = []
+        sides, inrepo = [], False
         for m in _ACCESS.finditer(rep):
             frames = [(a, b, int(c)) for a, b, c in _FRAME.findall(m.group(2))]
+            inrepo = inrepo or any("containers/nri-plugins" in fn for fn, _, _ in frames)
+            inner = next((fn for fn, fl, _ in frames if "/src/runtime/" not in fl), "")
+            if inner.startswith("verifharness/") or inner.startswith("main."):
+                inrepo = False              # the racing word belongs to the harness (only after a hang: the round is never joined)
+                sides = []
+                break
             s = classify_side(frames)
             s["op"] = m.group(1).lower()
             s["frames"] = ["%s %s:%d" % (fn.split("/")[-1], os.path.basename(fl), ln) for fn, fl, ln in frames
                            if "/src/runtime/" not in fl][:4]
             sides.append(s)
-        if len(sides) < 2:
-            continue
+        if len(sides) < 2 or not inrepo:
+            continue                        # (a report without any frame of the repository is about the harness itself)
         key = " || ".join(sorted("%s@%s" % (s["kind"], ",".join(s["frames"][:2])) for s in sides))
         if key in seen:
             continue
@@ -294,9 +300,17 @@ _GFRAME = re.compile(r"^(\S+)\(.*\)\n\t(\S+):(\d+)", re.M)
 def parse_crash(text):
     """`fatal error: concurrent map ...` kills the process: the goroutines that are inside a request handler at that moment
     are the sides of the unsynchronized access."""
-    m = re.search(r"fatal error: (concurrent map[^\n]*)", text)
+    m = re.search(r"^(?:fatal error:|panic: |SIGSEGV|\[signal )", text, re.M)
     if not m:
         return None
+    # (the runtime writes "fatal error: " and the message separately; log lines of other threads may come in between)
+    w = re.search(r"concurrent map (?:read and map write|writes|iteration and map write)", text[m.start():m.start() + 20000])
+    if w:
+        what = w.group(0)
+    else:
+        # another death of the runtime (memory corrupted by unsynchronized writers: unexpected signal, bad pointer, nil map
+        # ...): evidence only if a goroutine is executing a handler outside the lock at that moment -- see the caller
+        what = "runtime died: " + re.sub(r"[^\w :.,()\[\]-]", "", text[m.start():m.start() + 100].split("\n")[0])[:80]
     tail = text[m.start():]
     sides = []
     for g in _GOR.finditer(tail):
@@ -311,8 +325,10 @@ def parse_crash(text):
         s["frames"] = ["%s %s:%d" % (fn.split("/")[-1], os.path.basename(fl), ln) for fn, fl, ln in frames if "/src/runtime/" not in fl][:4]
         s["op"] = "in-handler-when-the-runtime-aborted"
         sides.append(s)
-    key = m.group(1) + ": " + " || ".join(sorted({"%s@%s" % (s["kind"], s["frames"][0] if s["frames"] else "?") for s in sides}))
-    return {"ev": "crash", "key": key, "what": m.group(1), "sides": sides}
+    if not w and not any(not x["locked"] for x in sides):
+        return None
+    key = what + ": " + " || ".join(sorted({"%s@%s" % (s["kind"], s["frames"][0] if s["frames"] else "?") for s in sides}))
+    return {"ev": "crash", "key": key, "what": what, "sides": sides}
 
 
 # ----------------------------------------------------------------------------------------------- design check
@@ -425,9 +441,9 @@ def run_shard(binp, script, a, b, outdir, tag, race, extra=None, timeout=900):
                     blk = f.read(1 << 20)
                     if not blk:
                         break
-                    i = (keep + blk).find(b"fatal error:")
-                    if i >= 0:
-                        pos = off - len(keep) + i
+                    mm = re.search(rb"^(?:fatal error:|panic: |SIGSEGV|\[signal )", keep + blk, re.M)
+                    if mm:
+                        pos = off - len(keep) + mm.start()
                         break
                     keep = blk[-16:]
                     off += len(blk)
@@ -446,12 +462,14 @@ def run_shard(binp, script, a, b, outdir, tag, race, extra=None, timeout=900):
                     last = max(last, json.loads(l).get("s", last))
                 except ValueError:
                     pass                       # a torn last line
-        if crash is None or attempt >= 6:
-            raise vlib.Inconclusive("concdrv died (rc=%s) in sessions %d..%d without a recognisable runtime error:\n%s" % (rc, a, b, err[-3000:]))
+        if crash is None:
+            raise vlib.Inconclusive("concdrv died (rc=%s) in sessions %d..%d without a recognisable runtime error:\n%s" % (rc, a, b, err[:3000]))
         crash["s"] = max(last, a)
         crashes.append(crash)
         a = max(last, a) + 1
         attempt += 1
+        if attempt >= 6:
+            break                              # six dead processes in one shard are evidence enough
     return rounds, l2s, crashes, hang
 
 
@@ -747,7 +765,10 @@ def run(ctx):
                 problems.append("rendezvous mode %s not exercised with GOMAXPROCS=1 and >1" % m)
         if sp["boot_errors"] + sr["boot_errors"] > (sp["sessions"] + sr["sessions"]) // 4:
             problems.append("%d worlds did not boot" % (sp["boot_errors"] + sr["boot_errors"]))
-    if problems and not (hang_p or hang_r):
+    fresh = [v for v in mine if not vlib.match_kf(kfs, ctx.pid, v)]
+    if problems and not (hang_p or hang_r) and not fresh:
+        # (a violation found on the way is a verdict whatever the coverage: sessions end at the first divergence, so a broken
+        # tree runs fewer rounds)
         raise vlib.Inconclusive("drivers did not exercise what they should: " + "; ".join(problems))
 
     # model vs. code: which kinds work outside the lock (drift is reported, it is not a verdict)
